@@ -50,6 +50,22 @@ def norm_stmt(s):
     return d
 
 
+# bytes a command line / description may contain (C19 compdb clause), written as latin-1 strings of raw bytes
+DECOR = {
+    "": "",
+    "quotes": 'a"b\\c"d',
+    "ctrl": "x\x01y\x1fz\x7f\tw",
+    "utf8": "\u00e9\u6f22".encode("utf-8").decode("latin-1"),
+    "bad8": "p\xffq\xfe",
+}
+
+
+def cmd_text(s, cmd, ctl):
+    """The command line of statement s exactly as ninja evaluates it (without $out of trap commands)."""
+    d = DECOR.get(s.get("decor", ""), "")
+    return "%s%s %s e%d v%d%s" % ("exec " if s.get("trap") else "", cmd, ctl, s["id"], s["ver"], (" '" + d + "'") if d else "")
+
+
 def render_manifest(sc, cmd, ctl):
     m = ""
     for p in sc.get("pools", []):
@@ -60,8 +76,8 @@ def render_manifest(sc, cmd, ctl):
         m += "rule r%d\n" % s["id"]
         # a command that handles the signal itself is ninja's direct child (exec), as a tool started without a wrapper
         # shell would be: ninja can only wait for the processes it started itself
-        m += "  command = %s%s %s e%d v%d%s\n" % ("exec " if s.get("trap") else "", cmd, ctl, s["id"], s["ver"], " --trap 60 $out" if s.get("trap") else "")
-        m += "  description = E%d\n" % s["id"]
+        m += "  command = %s%s\n" % (cmd_text(s, cmd, ctl), " --trap 60 $out" if s.get("trap") else "")
+        m += "  description = E%d%s\n" % (s["id"], (" " + DECOR[s["decor"]]) if s.get("decor") else "")
         if s["restat"]:
             m += "  restat = 1\n"
         if s["gen"]:
@@ -185,8 +201,8 @@ class Execution:
         path = self.p(f)
         os.makedirs(os.path.dirname(path), exist_ok=True)
         tmp = path + ".tmp~"
-        with open(tmp, "w") as fh:
-            fh.write(content if isinstance(content, str) else json.dumps(content))
+        with open(tmp, "wb") as fh:
+            fh.write((content if isinstance(content, str) else json.dumps(content)).encode("latin-1", "replace"))
         os.replace(tmp, path)
         time.sleep(0.002)
 
@@ -250,13 +266,16 @@ class Execution:
             if s["dd"] and s["dd"] in sc["srcs"]:
                 self.put(s["dd"], dd_text(sc, s["dd"]))
         self.write_manifest()
-        self.events.append({"e": "Reset", "sc": sc.get("id", ""), "run": self.run_no, "tw": 0, "twk": "", "g": graph_json(sc), "tree": self.tree()})
+        self.events.append({"e": "Reset", "sc": sc.get("id", ""), "run": self.run_no, "tw": 0, "twk": "", "ddbad": sc.get("ddbad", []), "g": graph_json(sc), "tree": self.tree()})
         for step in sc["hist"]:
             if step["op"] == "build":
                 self.invoke(step)
                 continue
             op = step["op"]
             f = step.get("f", "")
+            if op == "tools":
+                self.tools(step)
+                continue
             if op == "edit":
                 if any(s["dd"] == f for s in sc["stmts"]):
                     self.put(f, dd_text(sc, f))
@@ -289,6 +308,87 @@ class Execution:
                     pass
             self.events.append({"e": "Env", "op": op, "f": f, "s": step.get("s", 0), "g": graph_json(sc), "tree": self.tree()})
         self.events.append({"e": "EndRun", "choices": list(self.ch.taken)})
+
+    # -- read-only tools (C19) ----------------------------------------------------
+    def _log_bytes(self):
+        r = []
+        for n in (".ninja_log", ".ninja_deps", ".ninja_lock"):
+            try:
+                r.append(open(self.p(n), "rb").read())
+            except FileNotFoundError:
+                r.append(None)
+        return r
+
+    def tools(self, step):
+        """Runs every read-only tool of the real binary on the current tree; one Tool event per run."""
+        sc = self.sc
+        targets = list(step.get("targets", []))
+        first = targets[:1]
+        rules = ["r%d" % s["id"] for s in sc["stmts"] if not s["phony"]][:1]
+        runs = [("commands", targets), ("commands1", first), ("inputs", targets), ("multi-inputs", targets), ("query", first),
+                ("targets-all", []), ("targets-depth", []), ("targets-rule", rules), ("rules", []), ("rules-d", []), ("graph", targets),
+                ("compdb", []), ("compdb-rule", rules), ("compdb-targets", targets), ("deps", []), ("deps-target", first), ("missingdeps", [])]
+        argv = {"commands": ["-t", "commands"], "commands1": ["-t", "commands", "-s"], "inputs": ["-t", "inputs"], "multi-inputs": ["-t", "multi-inputs"],
+                "query": ["-t", "query"], "targets-all": ["-t", "targets", "all"], "targets-depth": ["-t", "targets", "depth", "2"],
+                "targets-rule": ["-t", "targets", "rule"], "rules": ["-t", "rules"], "rules-d": ["-t", "rules", "-d"], "graph": ["-t", "graph"],
+                "compdb": ["-t", "compdb"], "compdb-rule": ["-t", "compdb"], "compdb-targets": ["-t", "compdb-targets"], "deps": ["-t", "deps"],
+                "deps-target": ["-t", "deps"], "missingdeps": ["-t", "missingdeps"]}
+        req = os.path.join(self.ctl, "req")
+        if os.path.exists(req):
+            os.remove(req)
+        os.mkfifo(req)
+        req_fd = os.open(req, os.O_RDWR | os.O_NONBLOCK)
+        by_cmd = {cmd_text(s, self.vcmd, self.ctl): s["id"] for s in sc["stmts"] if not s["phony"]}
+        env = dict(os.environ)
+        env.pop("VERIF_TRACE", None)
+        env.pop("NINJA_STATUS", None)
+        try:
+            for name, args in runs:
+                if name in ("commands1", "query", "deps-target") and not args:
+                    continue
+                if name in ("targets-rule", "compdb-rule") and not args:
+                    continue
+                pre = self.tree()
+                lpre = self._log_bytes()
+                try:
+                    pr = subprocess.run([self.ninja] + argv[name] + args, cwd=self.d, env=env, stdin=subprocess.DEVNULL, capture_output=True, timeout=60)
+                    rc, out = pr.returncode, pr.stdout
+                except subprocess.TimeoutExpired as e:
+                    rc, out = -1, (e.stdout or b"")
+                started = False
+                try:
+                    started = bool(os.read(req_fd, 4096))
+                except BlockingIOError:
+                    pass
+                if started:
+                    subprocess.run(["pkill", "-KILL", "-f", self.ctl], capture_output=True)
+                post = self.tree()
+                cmds, js = [], "na"
+                if name in ("commands", "commands1"):
+                    for line in out.decode("latin-1").split("\n"):
+                        if line:
+                            cmds.append(by_cmd.get(line, 0))
+                if name.startswith("compdb"):
+                    try:
+                        doc = json.loads(out)     # bytes: must be valid UTF-8 JSON text
+                        js = "ok" if isinstance(doc, list) else "bad"
+                    except ValueError:
+                        js = "bad"
+                        # not UTF-8, but well-formed JSON when every byte is taken as one character: the only fault is
+                        # that bytes >= 0x80 of a command line were copied through
+                        try:
+                            out.decode("utf-8")
+                        except UnicodeDecodeError:
+                            try:
+                                if isinstance(json.loads(out.decode("latin-1")), list):
+                                    js = "badutf8"
+                            except ValueError:
+                                pass
+                self.events.append({"e": "Tool", "tool": name, "targets": args if name in ("commands", "commands1") else [], "rc": rc,
+                                    "started": started, "pre": pre, "tree": post, "logsame": lpre == self._log_bytes(),
+                                    "cmds": cmds, "json": js, "g": graph_json(sc)})
+        finally:
+            os.close(req_fd)
 
     def fifo_count(self, path):
         try:
